@@ -1,5 +1,6 @@
 import ObiVerif.Model.Lcs
 import ObiVerif.Model.LcsBuf
+import ObiVerif.Model.LcsEgf
 import ObiVerif.Driver.Util
 /-! line protocol for C09 (see harness/c09.go for the ops) -/
 namespace ObiVerif.Driver.C09
@@ -10,14 +11,18 @@ def showLcs : Except Err (Int × Int × Int) → String
   | .error .panic => "panic"
   | .error .fuel => "layer-mismatch"
 
-/-- with endgapfree = false both layers (verbatim two-row buffer, banded matrix by rows) must agree -/
+/-- both layers (verbatim two-row buffer; banded matrix by rows: `bandLCS` for endgapfree = false, `bandEGF` for
+endgapfree = true) must agree on (score, length); with endgapfree = true, `end` must lie in `0..max(|a|,|b|)` -/
+def layersAgree (a b : Seq) (e : Int) (egf : Bool) (s l en : Int) : Bool :=
+  let st := if egf then bandEGF a b e else bandLCS a b e
+  let okEnd := if egf then decide (0 ≤ en ∧ en ≤ (max a.length b.length : Nat)) else true
+  match st with
+  | some (s', l') => decide (s = s' ∧ l = l') && okEnd
+  | none => decide (s = -1 ∧ l = -1) && okEnd
+
 def runLcs (a b : Seq) (e : Int) (egf : Bool) (fill : Option UInt64) : Except Err (Int × Int × Int) :=
   match fastLCSEGFScoreByte a b e egf fill with
-  | .ok (s, l, en) =>
-    if egf then .ok (s, l, en) else
-    match bandLCS a b e with
-    | some (s', l') => if s = s' ∧ l = l' then .ok (s, l, en) else .error .fuel
-    | none => if s = -1 ∧ l = -1 then .ok (s, l, en) else .error .fuel
+  | .ok (s, l, en) => if layersAgree a b e egf s l en then .ok (s, l, en) else .error .fuel
   | .error e => .error e
 
 /-- `lcsseq` : groups of four words `A B e egf` -/
@@ -30,14 +35,11 @@ def parseCalls : List String → Option (List (Seq × Seq × Int × Bool))
     | _, _, _, _ => none
   | _ => none
 
-/-- one result of a history; with endgapfree = false it must also agree with the structural layer -/
+/-- one result of a history; it must also agree with the structural layer of its mode -/
 def showSeqItem (c : Seq × Seq × Int × Bool) (r : Except Err (Int × Int × Int)) : String :=
   match r with
   | .ok (s, l, en) =>
-    if c.2.2.2 then s!"{s},{l},{en}" else
-    match bandLCS c.1 c.2.1 c.2.2.1 with
-    | some (s', l') => if s = s' ∧ l = l' then s!"{s},{l},{en}" else "layer-mismatch"
-    | none => if s = -1 ∧ l = -1 then s!"{s},{l},{en}" else "layer-mismatch"
+    if layersAgree c.1 c.2.1 c.2.2.1 c.2.2.2 s l en then s!"{s},{l},{en}" else "layer-mismatch"
   | .error .panic => "panic"
   | .error .fuel => "layer-mismatch"
 
@@ -88,6 +90,17 @@ def run (line : String) : String :=
     match parseCalls rest with
     | some calls => if calls.isEmpty then "bad-op" else joinSp (zipShow calls (lcsHistory calls #[]))
     | none => "bad-op"
+  | ["lcslong", x, n, ta, y, m, tb, e, egf] =>
+    -- A = x^n ++ ta, B = y^m ++ tb (long sequences given in compact form)
+    match unhex x, n.toNat?, unhex ta, unhex y, m.toNat?, unhex tb, e.toInt? with
+    | some [x], some n, some ta, some [y], some m, some tb, some e =>
+      if e < -1 ∨ (egf ≠ "0" ∧ egf ≠ "1") ∨ n > 70000 ∨ m > 70000 then "bad-op" else
+      let a := List.replicate n x ++ ta
+      let b := List.replicate m y ++ tb
+      -- the structural layer computes whole rows: only when one of the sequences is short
+      if min a.length b.length ≤ 64 then showLcs (runLcs a b e (egf == "1") none)
+      else showLcs (fastLCSEGFScoreByte a b e (egf == "1") none)
+    | _, _, _, _, _, _, _ => "bad-op"
   | ["d1", a, b] =>
     match unhex a, unhex b with
     | some a, some b => showD1E (runD1 a b)
